@@ -1,0 +1,47 @@
+//! Verification hooks, only compiled with the `verif` cargo feature. Nothing in here changes the
+//! behaviour of the crate unless a callback or a clock is installed by a test harness.
+
+use std::sync::{
+    atomic::{AtomicI64, Ordering},
+    Arc, RwLock,
+};
+
+type PointFn = dyn Fn(&'static str) + Send + Sync;
+
+static POINT: RwLock<Option<Arc<PointFn>>> = RwLock::new(None);
+
+/// When non-zero, the next timestamp handed out to a write. Incremented after every use.
+static CLOCK: AtomicI64 = AtomicI64::new(0);
+
+/// Install (or remove) the callback invoked at every schedule point.
+pub fn set_point_callback(cb: Option<Arc<PointFn>>) {
+    *POINT.write().unwrap() = cb;
+}
+
+/// A named schedule point. Does nothing unless a callback is installed.
+pub fn point(name: &'static str) {
+    let cb = POINT.read().unwrap().clone();
+    if let Some(cb) = cb {
+        cb(name);
+    }
+}
+
+/// Make timestamps deterministic: the next write is stamped `next`, the one after `next + 1`, ...
+/// Passing 0 restores the wall clock.
+pub fn set_clock(next: i64) {
+    CLOCK.store(next, Ordering::SeqCst);
+}
+
+/// The overriding timestamp, if a deterministic clock is installed.
+pub fn next_tstamp() -> Option<i64> {
+    let mut cur = CLOCK.load(Ordering::SeqCst);
+    loop {
+        if cur == 0 {
+            return None;
+        }
+        match CLOCK.compare_exchange(cur, cur + 1, Ordering::SeqCst, Ordering::SeqCst) {
+            Ok(_) => return Some(cur),
+            Err(c) => cur = c,
+        }
+    }
+}
